@@ -38,17 +38,35 @@ Definition I (g : tg) (pre : list bool) : Prop :=
   tg_pos g = zlen pre /\ tg_idx g = hits pre /\ tg_combo g = hits pre /\
   tg_skill g = pr (sat_sub (zlen pre) 2).
 
-(* values still to come *)
+Variable flags : list bool.
+(* `take` is a u32 and becomes u32::MAX once every hit is passed: fewer hits than that *)
+Hypothesis Hsmall : zlen flags < 4294967295.
+Notation next := (taiko_next S process flags).
+Notation nth := (taiko_nth S process flags).
+Notation len := (taiko_len S flags).
+
+(* values still to come: the value of a hit is taken right after it, except for the last hit,
+   whose value is taken after everything that follows it *)
 Fixpoint tvals (pre post : list bool) : list (Z * S) :=
   match post with
   | [] => []
-  | h :: tl => (if h then [tval (pre ++ [h])] else []) ++ tvals (pre ++ [h]) tl
+  | h :: tl => (if h then [tval (if hits tl =? 0 then pre ++ h :: tl else pre ++ [h])] else [])
+               ++ tvals (pre ++ [h]) tl
   end.
 
 Lemma tvals_length : forall post pre, zlen (tvals pre post) = hits post.
 Proof.
   induction post as [|h tl IH]; intros pre; [reflexivity|].
   cbn [tvals]. rewrite zlen_app, IH. unfold hits. destruct h; cbn; unfold zlen; cbn [length]; lia.
+Qed.
+
+Lemma hits_cons h tl : hits (h :: tl) = (if h then 1 else 0) + hits tl.
+Proof. change (h :: tl) with ([h] ++ tl). rewrite hits_app. destruct h; reflexivity. Qed.
+
+Lemma tvals_nohit : forall post pre, hits post = 0 -> tvals pre post = [].
+Proof.
+  intros post pre H. pose proof (tvals_length post pre) as L. rewrite H in L.
+  destruct (tvals pre post); [reflexivity|]. unfold zlen in L. cbn [length] in L. lia.
 Qed.
 
 (* one object passed: the invariant moves on *)
@@ -72,37 +90,49 @@ Proof.
     rewrite (sat_sub_zero (zlen pre + 1) 2) by lia. rewrite (sat_sub_zero (zlen pre) 2) by lia. reflexivity.
 Qed.
 
-(* pass_next_hit: lands right after the next hit, or runs out *)
-Lemma pass_spec : forall post (g : tg) pre,
-  I g pre ->
-  match tvals pre post with
-  | [] => exists g', taiko_pass S process post g = (None, g') /\ I g' (pre ++ post)
-  | v :: _ => exists g' nh tl,
-      post = nh ++ true :: tl /\ taiko_pass S process post g = (Some g', g') /\
-      I g' (pre ++ nh ++ [true]) /\ v = tval (pre ++ nh ++ [true]) /\
-      tvals pre post = v :: tvals (pre ++ nh ++ [true]) tl
-  end.
+(* the loop over objects without a hit just passes them all *)
+Lemma loop_nohit : forall rest (g : tg) pre total,
+  I g pre -> hits rest = 0 -> I (taiko_pass_loop S process total rest g) (pre ++ rest).
 Proof.
-  induction post as [|h tl IH]; intros g pre HI.
-  - cbn. exists g. rewrite app_nil_r. split; [reflexivity|exact HI].
-  - cbn [tvals taiko_pass]. pose proof (step_I g pre h HI) as HI'. destruct h.
-    + eexists. exists [], tl. cbn [app].
-      split; [reflexivity|]. split; [reflexivity|]. split; [exact HI'|]. split; reflexivity.
-    + cbn [app]. replace (tg_idx g + 0) with (tg_idx g) in HI' by lia.
-      replace (tg_combo g + 0) with (tg_combo g) in HI' by lia.
-      specialize (IH _ (pre ++ [false]) HI').
-      destruct (tvals (pre ++ [false]) tl) as [|v vs] eqn:Ev.
-      * destruct IH as (g' & Hg' & HIg'). exists g'. rewrite <- app_assoc in HIg'. split; assumption.
-      * destruct IH as (g' & nh & tl' & -> & Hg' & HIg' & Hv & Hvs).
-        exists g', (false :: nh), tl'. rewrite <- !app_assoc in *. cbn [app] in *.
-        split; [reflexivity|]. split; [exact Hg'|]. split; [exact HIg'|]. split; [exact Hv|exact Hvs].
+  induction rest as [|h tl IH]; intros g pre total HI H0; cbn [taiko_pass_loop].
+  - now rewrite app_nil_r.
+  - rewrite hits_cons in H0. pose proof (hits_nonneg tl). destruct h; [lia|].
+    pose proof (step_I g pre false HI) as HI'. cbn [app] in HI'.
+    replace (tg_idx g + 0) with (tg_idx g) in HI' by lia.
+    replace (tg_combo g + 0) with (tg_combo g) in HI' by lia.
+    specialize (IH _ (pre ++ [false]) total HI' ltac:(lia)).
+    now rewrite <- app_assoc in IH.
 Qed.
 
-Variable flags : list bool.
-Hypothesis Hsmall : zlen flags < 18446744073709551616.       (* a Vec has fewer than 2^64 elements *)
-Notation next := (taiko_next S process flags).
-Notation nth := (taiko_nth S process flags).
-Notation len := (taiko_len S flags).
+(* the loop with a hit ahead: stops after the next hit, or — if that was the last hit — at the
+   very end; either way the first value still to come is the value of the state reached *)
+Lemma loop_some : forall post (g : tg) pre,
+  I g pre -> flags = pre ++ post -> 0 < hits post ->
+  exists pre' post', flags = pre' ++ post' /\ I (taiko_pass_loop S process (hits flags) post g) pre' /\
+                     tvals pre post = tval pre' :: tvals pre' post'.
+Proof.
+  induction post as [|h tl IH]; intros g pre HI Hf Hh; [change (hits []) with 0 in Hh; lia|].
+  cbn [taiko_pass_loop tvals]. pose proof (step_I g pre h HI) as HI'. destruct h.
+  - (* a hit *)
+    cbn [tg_idx].
+    assert (Htot : hits flags = hits pre + 1 + hits tl) by (rewrite Hf, hits_app, hits_cons; lia).
+    destruct HI as (_ & Hi & _). pose proof (hits_nonneg tl) as Htl.
+    destruct (hits tl =? 0) eqn:E.
+    + apply Z.eqb_eq in E.
+      replace (tg_idx g + 1 <? hits flags) with false by (symmetry; apply Z.ltb_ge; lia).
+      exists (pre ++ true :: tl), []. split; [now rewrite app_nil_r|]. split.
+      * pose proof (loop_nohit tl _ (pre ++ [true]) (hits flags) HI' E) as H.
+        now rewrite <- app_assoc in H.
+      * rewrite (tvals_nohit tl _ E). reflexivity.
+    + apply Z.eqb_neq in E.
+      replace (tg_idx g + 1 <? hits flags) with true by (symmetry; apply Z.ltb_lt; lia).
+      exists (pre ++ [true]), tl. split; [now rewrite <- app_assoc|]. split; [exact HI'|reflexivity].
+  - (* not a hit *)
+    cbn [app]. replace (tg_idx g + 0) with (tg_idx g) in HI' by lia.
+    replace (tg_combo g + 0) with (tg_combo g) in HI' by lia.
+    rewrite hits_cons in Hh.
+    apply (IH _ (pre ++ [false]) HI'); [now rewrite <- app_assoc|lia].
+Qed.
 
 (* state relation: [pre] passed, [post] to come *)
 Definition Rt (g : tg) (pre post : list bool) : Prop := flags = pre ++ post /\ I g pre.
@@ -129,22 +159,42 @@ Qed.
 Lemma Rt_new : Rt (taiko_new S s0) [] flags.
 Proof. split; [reflexivity|]. unfold I, taiko_new; cbn. repeat split. Qed.
 
+(* pass_next_hit *)
+Lemma pass_none g pre post : Rt g pre post -> hits post = 0 -> taiko_pass S process flags g = (None, g).
+Proof.
+  intros [Hf (_ & Hi & _)] H0. unfold taiko_pass, taiko_total_hits. fold (hits flags).
+  replace (tg_idx g =? hits flags) with true; [reflexivity|].
+  symmetry. apply Z.eqb_eq. rewrite Hf, hits_app. lia.
+Qed.
+
+Lemma pass_some g pre post : Rt g pre post -> 0 < hits post ->
+  exists g' pre' post', taiko_pass S process flags g = (Some g', g') /\ Rt g' pre' post' /\
+                        tvals pre post = tval pre' :: tvals pre' post'.
+Proof.
+  intros [Hf HI] Hh. pose proof HI as (Hp & Hi & _).
+  unfold taiko_pass, taiko_total_hits. fold (hits flags).
+  replace (tg_idx g =? hits flags) with false
+    by (symmetry; apply Z.eqb_neq; rewrite Hf, hits_app; lia).
+  replace (zskip (tg_pos g) flags) with post by (rewrite Hp, Hf, zskip_app; reflexivity).
+  destruct (loop_some post g pre HI Hf Hh) as (pre' & post' & Hf' & HI' & Hv).
+  eexists. exists pre', post'. split; [reflexivity|]. split; [split; assumption|exact Hv].
+Qed.
+
 Lemma next_spec_t g pre post : Rt g pre post ->
   match tvals pre post with
-  | [] => exists g', next g = (None, g') /\ Rt g' (pre ++ post) []
+  | [] => next g = (None, g)
   | v :: vs => exists g' pre' post', next g = (Some v, g') /\ Rt g' pre' post' /\ tvals pre' post' = vs
                                      /\ tg_idx g' = fst v
   end.
 Proof.
-  intros [Hf HI]. pose proof HI as (Hp & _). unfold taiko_next. rewrite Hp, Hf, zskip_app.
-  pose proof (pass_spec post g pre HI) as H.
-  destruct (tvals pre post) as [|v vs].
-  - destruct H as (g' & -> & HI'). exists g'. split; [reflexivity|]. split; [now rewrite app_nil_r|exact HI'].
-  - destruct H as (g' & nh & tl & -> & -> & HI' & -> & Hvs).
-    exists g', (pre ++ nh ++ [true]), tl. split.
-    + destruct HI' as (_ & _ & Hc & Hs). unfold tval. now rewrite Hc, Hs.
-    + split; [split; [now rewrite <- !app_assoc|exact HI']|]. split; [now injection Hvs|].
-      destruct HI' as (_ & Hi' & _). exact Hi'.
+  intros HR. pose proof (tvals_length post pre) as L. unfold taiko_next.
+  destruct (tvals pre post) as [|v vs] eqn:Ev.
+  - change (zlen (@nil (Z * S))) with 0 in L. now rewrite (pass_none g pre post HR ltac:(lia)).
+  - assert (Hh : 0 < hits post) by (rewrite <- L; unfold zlen; cbn [length]; lia).
+    destruct (pass_some g pre post HR Hh) as (g' & pre' & post' & -> & HR' & Hv).
+    rewrite Ev in Hv. injection Hv as -> ->.
+    exists g', pre', post'. destruct HR' as [Hf' HI']. pose proof HI' as (_ & Hi' & Hc' & Hs').
+    split; [unfold tval; now rewrite Hc', Hs'|]. split; [split; assumption|]. split; [reflexivity|exact Hi'].
 Qed.
 
 Lemma loop_spec_t : forall (k : nat) g pre post, Rt g pre post ->
@@ -154,19 +204,14 @@ Lemma loop_spec_t : forall (k : nat) g pre post, Rt g pre post ->
 Proof.
   induction k as [|k IH]; intros g pre post HR Hk.
   - exists g, pre, post. split; [reflexivity|]. split; [exact HR|reflexivity].
-  - cbn [taiko_nth_loop]. pose proof HR as [Hf HI]. pose proof HI as (Hp & _).
-    replace (zskip (tg_pos g) flags) with post by (rewrite Hp, Hf, zskip_app; reflexivity).
-    pose proof (pass_spec post g pre HI) as H.
-    destruct (tvals pre post) as [|v vs] eqn:Ev; [cbn in Hk; lia|].
-    destruct H as (g' & nh & tl & Hpost & -> & HI' & _ & Hvs).
-    assert (HR' : Rt g' (pre ++ nh ++ [true]) tl) by (split; [rewrite Hf, Hpost, <- !app_assoc; reflexivity|exact HI']).
-    injection Hvs as Hvs. cbn [length] in Hk.
-    destruct (IH g' _ _ HR' ltac:(rewrite <- Hvs; lia)) as (g'' & pre'' & post'' & Hl & HR'' & Hsk).
-    exists g'', pre'', post''. split; [exact Hl|]. split; [exact HR''|]. cbn [skipn]. now rewrite Hvs.
+  - cbn [taiko_nth_loop].
+    pose proof (tvals_length post pre) as L.
+    assert (Hh : 0 < hits post) by (rewrite <- L; unfold zlen; lia).
+    destruct (pass_some g pre post HR Hh) as (g' & pre' & post' & -> & HR' & Hv).
+    rewrite Hv in Hk. cbn [length] in Hk.
+    destruct (IH g' _ _ HR' ltac:(lia)) as (g'' & pre'' & post'' & Hl & HR'' & Hsk).
+    exists g'', pre'', post''. split; [exact Hl|]. split; [exact HR''|]. rewrite Hv. cbn [skipn]. exact Hsk.
 Qed.
-
-Lemma tvals_nil_next g pre post : Rt g pre post -> tvals pre post = [] -> exists g', next g = (None, g') /\ Rt g' (pre ++ post) [].
-Proof. intros HR E. pose proof (next_spec_t g pre post HR) as H. now rewrite E in H. Qed.
 
 Theorem taiko_machine_refines : forall ops g pre post,
   Rt g pre post -> Forall nth_ok ops ->
@@ -178,14 +223,14 @@ Proof.
   - (* next *)
     pose proof (next_spec_t g pre post HR) as H.
     destruct (tvals pre post) as [|v vs] eqn:Ev.
-    + destruct H as (g' & -> & HR'). f_equal. rewrite (IH g' _ _ HR' Hops'). reflexivity.
+    + rewrite H. f_equal. rewrite (IH g _ _ HR Hops'), Ev. reflexivity.
     + destruct H as (g' & pre' & post' & -> & HR' & <- & _). f_equal. apply (IH g' _ _ HR' Hops').
   - (* nth *)
     cbn in Ho. unfold taiko_nth at 1. rewrite (len_spec_t g pre post HR), <- tvals_length with (pre := pre).
     set (rem := tvals pre post) in *.
     assert (Hk : (Z.to_nat (Z.min n (zlen rem)) <= length rem)%nat) by (unfold zlen; lia).
     destruct (loop_spec_t _ g pre post HR Hk) as (g1 & pre1 & post1 & -> & HR1 & Hsk).
-    pose proof (next_spec_t g1 pre1 post1 HR1) as H. rewrite Hsk in H. fold rem in H.
+    pose proof (next_spec_t g1 pre1 post1 HR1) as H. rewrite Hsk in H. fold rem in H. fold rem in Hsk.
     destruct (Z_lt_le_dec n (zlen rem)) as [Hlt|Hge].
     + replace (Z.min n (zlen rem)) with n in * by lia.
       destruct (skipn (Z.to_nat n) rem) as [|v vs] eqn:Es.
@@ -193,10 +238,10 @@ Proof.
         rewrite skipn_length in *. unfold zlen in Hlt. lia.
       * destruct H as (g' & pre' & post' & -> & HR' & <- & _). f_equal. apply (IH g' _ _ HR' Hops').
     + replace (Z.min n (zlen rem)) with (zlen rem) in * by lia.
-      unfold zlen in H. rewrite Nat2Z.id, skipn_all in H.
-      destruct H as (g' & -> & HR').
+      unfold zlen in H. rewrite Nat2Z.id, skipn_all in H. rewrite H.
       rewrite skipn_all2 by (unfold zlen in Hge; lia).
-      f_equal. rewrite (IH g' _ _ HR' Hops'). reflexivity.
+      unfold zlen in Hsk. rewrite Nat2Z.id, skipn_all in Hsk.
+      f_equal. rewrite (IH g1 _ _ HR1 Hops'), Hsk. reflexivity.
   - (* len *)
     rewrite (len_spec_t g pre post HR), <- tvals_length with (pre := pre). f_equal.
     apply (IH g pre post HR Hops').
@@ -214,15 +259,15 @@ Proof.
   set (rem := tvals pre post) in *.
   assert (Hk : (Z.to_nat (Z.min n (zlen rem)) <= length rem)%nat) by (unfold zlen; lia).
   destruct (loop_spec_t _ g pre post HR Hk) as (g1 & pre1 & post1 & -> & HR1 & Hsk).
-  pose proof (next_spec_t g1 pre1 post1 HR1) as H. rewrite Hsk in H. fold rem in H.
+  pose proof (next_spec_t g1 pre1 post1 HR1) as H. rewrite Hsk in H. fold rem in H. fold rem in Hsk.
   destruct (Z_lt_le_dec n (zlen rem)) as [Hlt|Hge].
   - replace (Z.min n (zlen rem)) with n in * by lia.
     destruct (skipn (Z.to_nat n) rem) as [|v vs]; [|exact H].
-    destruct H as (g' & -> & HR'). exists g', (pre1 ++ post1), []. split; [reflexivity|]. split; [exact HR'|reflexivity].
+    rewrite H. exists g1, pre1, post1. split; [reflexivity|]. split; [exact HR1|exact Hsk].
   - replace (Z.min n (zlen rem)) with (zlen rem) in * by lia.
-    unfold zlen in H. rewrite Nat2Z.id, skipn_all in H.
+    unfold zlen in H, Hsk. rewrite Nat2Z.id, skipn_all in H, Hsk.
     rewrite skipn_all2 by (unfold zlen in Hge; lia).
-    destruct H as (g' & -> & HR'). exists g', (pre1 ++ post1), []. split; [reflexivity|]. split; [exact HR'|reflexivity].
+    rewrite H. exists g1, pre1, post1. split; [reflexivity|]. split; [exact HR1|exact Hsk].
 Qed.
 
 (* ---- gradual performance on top of the taiko machine (C03) ----------------------------- *)
@@ -286,10 +331,21 @@ Proof.
   replace (combo <? take) with false by (symmetry; apply Z.ltb_ge; lia). now apply IH.
 Qed.
 
-Lemma oneshot_tval p post : flags = (p ++ [true]) ++ post ->
+Lemma taiko_total_hits_eq l : taiko_total_hits l = hits l.
+Proof. reflexivity. Qed.
+
+(* a hit that is not the last one: take = hits so far, below the total, so `take` is used as is *)
+Lemma oneshot_tval p post : flags = (p ++ [true]) ++ post -> 0 < hits post ->
   taiko_oneshot S process s0 flags (hits p + 1) = tval (p ++ [true]).
 Proof.
-  intros Hf. unfold taiko_oneshot, taiko_create. rewrite Hf at 1. rewrite <- app_assoc.
+  intros Hf Hpost. unfold taiko_oneshot, taiko_create.
+  assert (Htot : hits flags = hits p + 1 + hits post).
+  { rewrite Hf, !hits_app. change (hits [true]) with 1. lia. }
+  assert (Etake : taiko_take flags (hits p + 1) = hits p + 1).
+  { unfold taiko_take. rewrite taiko_total_hits_eq.
+    replace (hits flags <=? hits p + 1) with false by (symmetry; apply Z.leb_gt; lia).
+    now rewrite andb_false_r. }
+  rewrite Etake. rewrite Hf at 1. rewrite <- app_assoc.
   pose proof (hits_nonneg p) as Hh. pose proof (zlen_nonneg p) as Hz.
   rewrite inspect_prefix by lia. cbn [app taiko_inspect].
   replace (0 + hits p <? hits p + 1) with true by (symmetry; apply Z.ltb_lt; lia).
@@ -308,18 +364,45 @@ Proof.
     cbn [fst snd]. apply f_equal2; [lia|]. apply f_equal. rewrite !SS. lia.
 Qed.
 
+(* the last hit: take = total hits becomes u32::MAX and every object is passed *)
+Lemma oneshot_tval_last : 0 < hits flags ->
+  taiko_oneshot S process s0 flags (hits flags) = tval flags.
+Proof.
+  intros Hpos. unfold taiko_oneshot, taiko_create.
+  assert (Etake : taiko_take flags (hits flags) = U32_MAX).
+  { unfold taiko_take. rewrite taiko_total_hits_eq.
+    replace (0 <? hits flags) with true by (symmetry; apply Z.ltb_lt; lia).
+    replace (hits flags <=? hits flags) with true by (symmetry; apply Z.leb_le; lia). reflexivity. }
+  rewrite Etake. pose proof (hits_le_len flags) as Hle. pose proof (zlen_nonneg flags) as Hz.
+  assert (Hi : taiko_inspect flags U32_MAX 0 0 = (hits flags, zlen flags)).
+  { pose proof (inspect_prefix flags [] U32_MAX 0 0 ltac:(unfold U32_MAX; lia)) as H.
+    rewrite app_nil_r in H. rewrite H. cbn [taiko_inspect]. f_equal; lia. }
+  rewrite Hi. unfold tval, taiko_n_diff_objects.
+  assert (SS : forall a b, sat_sub a b = Z.max 0 (a - b)).
+  { intros a b. unfold sat_sub. destruct (Z.ltb_spec a b); lia. }
+  destruct (zlen flags <? 2) eqn:E.
+  - apply Z.ltb_lt in E. cbn [fst snd]. apply f_equal2; [reflexivity|]. apply f_equal. rewrite !SS. lia.
+  - apply Z.ltb_ge in E.
+    replace ((0 <? U32_MAX) && (0 <? zlen flags)) with true
+      by (symmetry; apply andb_true_iff; split; apply Z.ltb_lt; unfold U32_MAX; lia).
+    cbn [fst snd]. apply f_equal2; [reflexivity|]. apply f_equal. rewrite !SS. lia.
+Qed.
+
 Lemma tvals_oneshots : forall post pre, flags = pre ++ post ->
   tvals pre post = map (taiko_oneshot S process s0 flags) (zrange (hits pre + 1) (Z.to_nat (hits post))).
 Proof.
   induction post as [|h tl IH]; intros pre Hf; [reflexivity|].
   cbn [tvals]. assert (Hf' : flags = (pre ++ [h]) ++ tl) by (rewrite <- app_assoc; exact Hf).
-  rewrite (IH _ Hf'). rewrite hits_app.
-  assert (Hh : hits (h :: tl) = (if h then 1 else 0) + hits tl).
-  { change (h :: tl) with ([h] ++ tl). rewrite hits_app. destruct h; reflexivity. }
-  pose proof (hits_nonneg tl). rewrite Hh. destruct h.
+  rewrite (IH _ Hf'). rewrite hits_app, (hits_cons h tl).
+  pose proof (hits_nonneg tl). destruct h.
   - change (hits [true]) with 1.
     replace (Z.to_nat (1 + hits tl)) with (Datatypes.S (Z.to_nat (hits tl))) by lia.
-    cbn [zrange map app]. f_equal. symmetry. now apply (oneshot_tval pre tl).
+    cbn [zrange map app]. f_equal. symmetry.
+    destruct (hits tl =? 0) eqn:E.
+    + apply Z.eqb_eq in E. rewrite <- Hf.
+      assert (Htot : hits flags = hits pre + 1) by (rewrite Hf, hits_app, hits_cons; lia).
+      rewrite <- Htot. apply oneshot_tval_last. pose proof (hits_nonneg pre). lia.
+    + apply Z.eqb_neq in E. apply (oneshot_tval pre tl Hf'). lia.
   - change (hits [false]) with 0. cbn [app].
     replace (hits pre + 0 + 1) with (hits pre + 1) by lia.
     replace (0 + hits tl) with (hits tl) by lia. reflexivity.
